@@ -9,6 +9,7 @@ import (
 	"time"
 
 	"github.com/relab/hotstuff"
+	"github.com/relab/hotstuff/internal/latency"
 )
 
 // C17 — the Kauri tree is one consistent tree over all replicas.
@@ -98,29 +99,15 @@ func c17Observe(x hotstuff.ID, bf int, ids []hotstuff.ID, queries []hotstuff.ID,
 			in.diverges = fmt.Sprintf("expanding ChildrenOf below replica %d yields more than n=%d entries: %v", x, len(ids), work)
 		} else {
 			stage = "SubTree"
-			type res struct {
-				st  []hotstuff.ID
-				pan any
+			st, pan, timedOut := c17SafeSubTree(t)
+			if pan != nil {
+				panic(pan)
 			}
-			done := make(chan res, 1)
-			go func() {
-				defer func() {
-					if r := recover(); r != nil {
-						done <- res{pan: r}
-					}
-				}()
-				done <- res{st: slices.Clone(t.SubTree())}
-			}()
-			select {
-			case r := <-done:
-				if r.pan != nil {
-					panic(r.pan)
-				}
-				in.subtree = r.st
-				in.subtreeDone = true
-			case <-time.After(10 * time.Second):
+			if timedOut {
 				in.diverges = fmt.Sprintf("SubTree() of replica %d did not return within 10s", x)
-				c17Abort = true
+			} else {
+				in.subtree = slices.Clone(st)
+				in.subtreeDone = true
 			}
 		}
 	}
@@ -148,6 +135,31 @@ func c17Observe(x hotstuff.ID, bf int, ids []hotstuff.ID, queries []hotstuff.ID,
 		panic("the instance changed its position list while answering queries")
 	}
 	return in
+}
+
+// c17SafeSubTree calls t.SubTree() on a goroutine so that a non-terminating loop is reported
+// instead of hanging the run; the raw (not copied) result is returned.
+func c17SafeSubTree(t *Tree) (st []hotstuff.ID, pan any, timedOut bool) {
+	type res struct {
+		st  []hotstuff.ID
+		pan any
+	}
+	done := make(chan res, 1)
+	go func() {
+		defer func() {
+			if r := recover(); r != nil {
+				done <- res{pan: r}
+			}
+		}()
+		done <- res{st: t.SubTree()}
+	}()
+	select {
+	case r := <-done:
+		return r.st, r.pan, false
+	case <-time.After(10 * time.Second):
+		c17Abort = true
+		return nil, nil, true
+	}
 }
 
 func c17SameSet(a, b []hotstuff.ID) bool {
@@ -378,6 +390,7 @@ type c17Run struct {
 	v      *verifOut
 	small  *verifStream
 	large  *verifStream
+	sess   *verifStream
 	insts  int
 	tables int
 }
@@ -391,10 +404,12 @@ func (r *c17Run) config(kind string, ids []hotstuff.ID, bf int, tableFrom []int)
 	}
 	n := len(ids)
 	// queries: every replica, plus two ids that are not in the tree
-	foreign := []hotstuff.ID{0, 4000000000}
+	// (0, a large one, and ids that agree with a member in their low 8 / 16 / 31 bits)
+	m1, m2 := ids[v.rng.Intn(n)], ids[v.rng.Intn(n)]
+	foreign := []hotstuff.ID{0, 4000000000, m1 + 1<<8, m1 + 1<<16, m2 ^ 1<<31, m2 + 1<<24}
 	queries := slices.Clone(ids)
 	for _, f := range foreign {
-		if !slices.Contains(ids, f) {
+		if !slices.Contains(queries, f) {
 			queries = append(queries, f)
 		}
 	}
@@ -437,11 +452,251 @@ func (r *c17Run) config(kind string, ids []hotstuff.ID, bf int, tableFrom []int)
 			tabs = append(tabs, c17TableTerm(in))
 		}
 	}
+	if bf > c17MaxKernelBF {
+		// the model keeps bf and level sizes in unary nat: very large branch factors are
+		// evaluated by the oracle only
+		v.Count("oracle-only:huge-bf")
+		return
+	}
 	s := r.small
 	if n > 12 {
 		s = r.large
 	}
 	v.Case(s, fmt.Sprintf("(%s, %s, %s, %s)", c17IDs(ids), gZ(int64(bf)), gList(obs), gList(tabs)), meta)
+	if len(fails) == 0 {
+		r.session(kind, ids, bf, insts)
+	}
+}
+
+const c17MaxKernelBF = 200
+
+var c17Locations = []string{"Oslo", "Paris", "Tokyo", "London", "Rome", "Sydney", "Toronto", "Vienna", "Bergen", "Madrid"}
+
+// session puts long-lived instances through a random sequence of queries: every accessor, in
+// any order, repeated, on several replicas' instances that either own their position slice or
+// all share one, built by NewSimple or NewDelayed. Every answer must equal what a fresh instance
+// of that replica answered in config() (ref), earlier results must not change under later
+// calls, the position slices must stay as they were, and writing into the slice returned by
+// SubTree (a fresh slice by construction) must not disturb the instance. All answers also go to
+// the kernel.
+func (r *c17Run) session(kind string, ids []hotstuff.ID, bf int, ref []c17Inst) {
+	v := r.v
+	n := len(ids)
+	if c17Abort || n == 0 {
+		return
+	}
+	byID := map[hotstuff.ID]*c17Inst{}
+	var root hotstuff.ID
+	for i := range ref {
+		byID[ref[i].x] = &ref[i]
+		if !ref[i].hasParent {
+			root = ref[i].x
+		}
+	}
+	shared := v.rng.Intn(2) == 0
+	isDefaultLabels := slices.Equal(c17Sorted(ids), DefaultTreePos(n))
+	ctor := v.rng.Intn(4)
+	if ctor == 3 && !isDefaultLabels {
+		ctor = 2 // the latency matrix is indexed by id-1: aggregation time needs ids 1..n
+	}
+	ctorName := []string{"NewSimple", "NewDelayed/none", "NewDelayed/tree-height", "NewDelayed/aggregation"}[ctor]
+	var ops []string
+	meta := map[string]any{"kind": "session/" + kind, "ids": c17Ints(ids), "bf": bf, "shared_slice": shared, "constructor": ctorName}
+	report := func(fp, what string) {
+		meta["ops"] = ops
+		v.Oracle(false, fp, what, meta)
+	}
+	var terms []string
+	failed := false
+	func() {
+		defer func() {
+			if rec := recover(); rec != nil {
+				failed = true
+				report("tree.panic:session", fmt.Sprintf("panic after %v: %v", ops, rec))
+			}
+		}()
+		build := func(x hotstuff.ID, pos []hotstuff.ID) *Tree {
+			switch ctor {
+			case 0:
+				return NewSimple(x, bf, pos)
+			case 1:
+				return NewDelayed(x, DelayTypeNone, bf, latency.Matrix{}, pos, time.Millisecond)
+			case 2:
+				return NewDelayed(x, DelayTypeTreeHeight, bf, latency.Matrix{}, pos, time.Millisecond)
+			default:
+				locs := make([]string, n)
+				for i := range locs {
+					locs[i] = c17Locations[i%len(c17Locations)]
+				}
+				return NewDelayed(x, DelayTypeAggregation, bf, latency.MatrixFrom(locs), pos, time.Millisecond)
+			}
+		}
+		// instances
+		var trees []*Tree
+		var xs []hotstuff.ID
+		var backing [][]hotstuff.ID
+		if shared {
+			pos := slices.Clone(ids)
+			backing = append(backing, pos)
+			for _, x := range ids {
+				trees = append(trees, build(x, pos))
+				xs = append(xs, x)
+			}
+		} else {
+			k := min(n, 1+v.rng.Intn(3))
+			for _, i := range v.rng.Perm(n)[:k] {
+				pos := slices.Clone(ids)
+				backing = append(backing, pos)
+				trees = append(trees, build(ids[i], pos))
+				xs = append(xs, ids[i])
+			}
+		}
+		type held struct {
+			raw, copy []hotstuff.ID
+			what      string
+		}
+		var holds []held
+		hold := func(raw []hotstuff.ID, what string) []hotstuff.ID {
+			c := slices.Clone(raw)
+			holds = append(holds, held{raw, c, what})
+			return c
+		}
+		someID := func() hotstuff.ID {
+			switch v.rng.Intn(8) {
+			case 0:
+				return 0
+			case 1:
+				return ids[v.rng.Intn(n)] + 1<<16
+			default:
+				return ids[v.rng.Intn(n)]
+			}
+		}
+		refChildren := func(y hotstuff.ID) []hotstuff.ID {
+			if o, ok := byID[y]; ok {
+				return o.children
+			}
+			return nil
+		}
+		steps := 8 + v.rng.Intn(12)
+		var j, a int
+		var y hotstuff.ID
+		for step := 0; step < steps && !failed; step++ {
+			if step == 0 || v.rng.Intn(4) != 0 { // otherwise: the same call again
+				j, a, y = v.rng.Intn(len(trees)), v.rng.Intn(10), someID()
+			}
+			t, x := trees[j], xs[j]
+			me := byID[x]
+			var term, op string
+			ok := true
+			switch a {
+			case 0:
+				p, has := t.Parent()
+				op = fmt.Sprintf("%d.Parent", x)
+				ok = p == me.parent && has == me.hasParent
+				term = fmt.Sprintf("QParent %s %s", gN(uint64(p)), gBool(has))
+			case 1:
+				l := hold(t.ReplicaChildren(), fmt.Sprintf("%d.ReplicaChildren", x))
+				op = fmt.Sprintf("%d.ReplicaChildren", x)
+				ok = c17SameSet(l, me.children)
+				term = "QReplicaChildren " + c17IDs(l)
+			case 2:
+				l := hold(t.ChildrenOf(y), fmt.Sprintf("%d.ChildrenOf(%d)", x, y))
+				op = fmt.Sprintf("%d.ChildrenOf(%d)", x, y)
+				ok = c17SameSet(l, refChildren(y))
+				term = fmt.Sprintf("QChildrenOf %s %s", gN(uint64(y)), c17IDs(l))
+			case 3, 4:
+				op = fmt.Sprintf("%d.SubTree", x)
+				raw, pan, timedOut := c17SafeSubTree(t)
+				if pan != nil {
+					panic(pan)
+				}
+				if timedOut {
+					ops = append(ops, op)
+					failed = true
+					report("tree.subtree:does-not-terminate", fmt.Sprintf("SubTree() of replica %d did not return within 10s after %v", x, ops))
+					return
+				}
+				l := slices.Clone(raw)
+				ok = c17SameSet(l, me.subtree)
+				term = "QSubTree " + c17IDs(l)
+				// the result is the caller's: overwrite and extend it
+				for i := range raw {
+					raw[i] = 0xFFFFFFFF
+				}
+				raw = append(raw, 0xFFFFFFFE, 0xFFFFFFFD)
+				_ = raw
+			case 5:
+				l := hold(t.PeersOf(), fmt.Sprintf("%d.PeersOf", x))
+				op = fmt.Sprintf("%d.PeersOf", x)
+				ok = c17SameSet(l, me.peers)
+				term = "QPeersOf " + c17IDs(l)
+			case 6:
+				h := t.ReplicaHeight()
+				op = fmt.Sprintf("%d.ReplicaHeight", x)
+				ok = h == me.rheight
+				term = "QReplicaHeight " + gNat(h)
+			case 7:
+				if v.rng.Intn(2) == 0 {
+					h := t.TreeHeight()
+					op = fmt.Sprintf("%d.TreeHeight", x)
+					ok = h == me.theight
+					term = "QTreeHeight " + gNat(h)
+				} else {
+					rt := t.Root()
+					op = fmt.Sprintf("%d.Root", x)
+					ok = rt == root
+					term = "QRoot " + gN(uint64(rt))
+				}
+			case 8:
+				b := t.IsRoot(y)
+				op = fmt.Sprintf("%d.IsRoot(%d)", x, y)
+				ok = b == (y == root)
+				term = fmt.Sprintf("QIsRoot %s %s", gN(uint64(y)), gBool(b))
+			default:
+				h := t.heightOf(y)
+				op = fmt.Sprintf("%d.heightOf(%d)", x, y)
+				want := 0
+				if o, member := byID[y]; member {
+					want = o.rheight
+				}
+				ok = h == want
+				term = fmt.Sprintf("QHeightOf %s %s", gN(uint64(y)), gNat(h))
+			}
+			ops = append(ops, op)
+			terms = append(terms, fmt.Sprintf("(%s, %s)", gN(uint64(x)), term))
+			if !ok {
+				failed = true
+				report("tree.session:answer-differs-from-fresh-instance", fmt.Sprintf("%s after %v differs from the answer of a fresh instance (%s)", op, ops[:len(ops)-1], term))
+				return
+			}
+			for _, b := range backing {
+				if !slices.Equal(b, ids) {
+					failed = true
+					report("tree.instance:position-list-changed", fmt.Sprintf("after %v the position slice is %v, was %v", ops, b, ids))
+					return
+				}
+			}
+			for _, h := range holds {
+				if !slices.Equal(h.raw, h.copy) {
+					failed = true
+					report("tree.result:changed-by-later-call", fmt.Sprintf("the slice returned by %s was %v and reads %v after %v", h.what, h.copy, h.raw, ops))
+					return
+				}
+			}
+		}
+	}()
+	if !failed {
+		v.Oracle(true, "", "", nil)
+	}
+	v.Seen(fmt.Sprintf("session %v/%d/%v", ids, bf, ops), n > 1, nil)
+	v.Count("kind:session")
+	v.Count("session-ctor:" + ctorName)
+	if shared {
+		v.Count("session:shared-slice")
+	}
+	v.CountN("session-queries", len(terms))
+	meta["ops"] = ops
+	v.Case(r.sess, fmt.Sprintf("(%s, %s, %s)", c17IDs(ids), gZ(int64(bf)), gList(terms)), meta)
 }
 
 func c17Perms(n int, f func([]hotstuff.ID)) {
@@ -474,7 +729,8 @@ func c17All(n int) []int {
 
 func TestVerifC17(t *testing.T) {
 	v := verifNew("C17")
-	r := &c17Run{v: v, small: v.Stream("small", "mismatches", 600), large: v.Stream("large", "mismatches", 24)}
+	r := &c17Run{v: v, small: v.Stream("small", "mismatches", 600), large: v.Stream("large", "mismatches", 24),
+		sess: v.Stream("session", "session_mismatches", 400)}
 
 	// (a) exhaustive small scope: every permutation of 1..n, every bf in 2..6, every vantage,
 	// every instance asked about every replica.
@@ -482,6 +738,12 @@ func TestVerifC17(t *testing.T) {
 	for n := 1; n <= maxPerm; n++ {
 		for bf := 2; bf <= 6; bf++ {
 			c17Perms(n, func(ids []hotstuff.ID) { r.config("perm", ids, bf, c17All(n)) })
+		}
+	}
+	// the same small trees with branch factors far above n (a root and one level, or a root alone)
+	for n := 1; n <= 4; n++ {
+		for _, bf := range []int{7, 64, c17MaxKernelBF} {
+			c17Perms(n, func(ids []hotstuff.ID) { r.config("perm-wide", ids, bf, c17All(n)) })
 		}
 	}
 
@@ -555,6 +817,71 @@ func TestVerifC17(t *testing.T) {
 				}
 				r.config(kind, ids, bf, tablesFor(n))
 			}
+		}
+	}
+	// (b2) replica ids at type boundaries and ids that agree in their low bits, for every n in 1..40
+	boundaryPool := []hotstuff.ID{0, 1, 2, 127, 128, 255, 256, 257, 32767, 32768, 65535, 65536, 65537,
+		1<<24 - 1, 1 << 24, 1<<24 + 1, 1<<31 - 1, 1 << 31, 1<<31 + 1, 1<<32 - 2, 1<<32 - 1}
+	boundaryLabels := func(n int) []hotstuff.ID {
+		out := make([]hotstuff.ID, 0, n)
+		for _, i := range v.rng.Perm(len(boundaryPool)) {
+			if len(out) < n {
+				out = append(out, boundaryPool[i])
+			}
+		}
+		for len(out) < n {
+			l := hotstuff.ID(v.rng.Uint32())
+			if !slices.Contains(out, l) {
+				out = append(out, l)
+			}
+		}
+		return out
+	}
+	lowBitsLabels := func(n int) []hotstuff.ID {
+		shift := []uint{8, 16, 24}[v.rng.Intn(3)]
+		base := hotstuff.ID(v.rng.Intn(1 << shift))
+		out := make([]hotstuff.ID, 0, n)
+		for len(out) < n {
+			l := base + hotstuff.ID(v.rng.Intn(1<<(32-shift)))<<shift
+			if !slices.Contains(out, l) {
+				out = append(out, l)
+			}
+		}
+		return out
+	}
+	for n := 1; n <= 40; n++ {
+		for k := 0; k < v.Pick(1, 6); k++ {
+			r.config("boundary-labels", boundaryLabels(n), 2+v.rng.Intn(5), tablesFor(n))
+			r.config("low-bits-labels", lowBitsLabels(n), 2+v.rng.Intn(5), tablesFor(n))
+		}
+	}
+	// (b3) branch factors around and above n: n-1, n, n+1, 2n+1 and some fixed wide ones
+	for n := 1; n <= 40; n++ {
+		var bfs []int
+		for _, bf := range []int{n - 1, n, n + 1, 2*n + 1, 7, 12, 64, c17MaxKernelBF} {
+			if bf > 6 && !slices.Contains(bfs, bf) {
+				bfs = append(bfs, bf)
+			}
+		}
+		for i, bf := range bfs {
+			ids := DefaultTreePos(n)
+			kind := "wide-identity"
+			if (i+n)%2 == 0 || v.Thorough() {
+				ids, kind = randPerm(n), "wide-random"
+			}
+			r.config(kind, ids, bf, tablesFor(n))
+		}
+	}
+	// branch factors up to what the configuration can carry (uint32): oracle only
+	for _, n := range []int{1, 2, 3, 10, 40} {
+		for _, bf := range []int{65536, 1<<31 - 1, 1<<32 - 1} {
+			r.config("huge-bf", randPerm(n), bf, []int{0, n - 1})
+		}
+	}
+	// (b4) the smallest trees of height 4 (binary, n = 8..11) with every instance asked everything
+	for n := 8; n <= 11; n++ {
+		for k := 0; k < v.Pick(10, 100); k++ {
+			r.config("deep-small", randPerm(n), 2, c17All(n))
 		}
 	}
 	// a few sizes beyond the stated range (information on the unbounded statement)
